@@ -145,6 +145,24 @@ def open_findings(prop):
     return [x for x in load_findings() if prop in x["properties"] and x["status"] == "open"]
 
 
+_FENCE_CACHE = {}
+
+
+def fenced(mod, key):
+    """True while finding `key` is listed as open for this property AND its deterministic probe still reproduces
+    on the tree under test: the random workload then stays out of that mechanism's trigger (DESIGN 3.11)."""
+    ck = (mod.PROP, key)
+    if ck not in _FENCE_CACHE:
+        on = False
+        if any(x["key"] == key for x in open_findings(mod.PROP)):
+            try:
+                on = bool(mod.PROBES[key]())
+            except Exception:
+                on = False
+        _FENCE_CACHE[ck] = on
+    return _FENCE_CACHE[ck]
+
+
 def write_replay(prop, seed, tier, v):
     d = os.path.join(VERIF, "replays", prop)
     os.makedirs(d, exist_ok=True)
